@@ -226,10 +226,8 @@ func genTypesCase(r *Rng) Case {
 		}
 	}
 	lo, hi, dec, _ := baseBounds(base)
-	for _, s := range []string{lo, hi, "0", "-1", "1", "+5", "-0", "007", "", " 1", "1 ", "1.0", "1.5", "0x10", "1e3", "abc", "true", "a", "c-d", "éé", "aé€", "--1", "+", "1.", ".5", "1_0", "NaN", "Inf", "9223372036854775808", "-9223372036854775809", "18446744073709551616", "256", "-129", "128"} {
-		if s == "-0" && strings.HasPrefix(base, "uint") {
-			continue // "-0" for an unsigned type: lexically an integer of value 0, refused by ParseUint — not compared
-		}
+	for _, s := range []string{lo, hi, "0", "-1", "1", "+5", "-0", "-00", "-", "+-0", "-+0", "007", "", " 1", "1 ", "1.0", "1.5", "0x10", "1e3", "abc", "true", "a", "c-d", "éé", "aé€", "--1", "+", "1.", ".5", "1_0", "NaN", "Inf", "9223372036854775808", "-9223372036854775809", "18446744073709551616", "256", "-129", "128"} {
+
 		add(s)
 	}
 	if dec {
